@@ -96,6 +96,22 @@ type Sim struct {
 	Invariant func() // checked after every step
 
 	progress *atomic.Int64
+
+	// SeqSimTime: simulated time covered, maintained by sequential engines themselves.
+	SeqSimTime time.Duration
+}
+
+// SeqStep records one step of a sequential (non-bubble) engine: it feeds the
+// schedule signature, the step counter and the event log.
+func (s *Sim) SeqStep(kind, detail string, nontrivial bool) {
+	s.Step++
+	if nontrivial {
+		s.multi = true
+	}
+	s.logStep('e', kind, detail)
+	if s.progress != nil {
+		s.progress.Add(1)
+	}
 }
 
 var curSim atomic.Pointer[Sim]
@@ -724,6 +740,25 @@ func RunOne(t interface {
 		T: tape, byG: map[int64]*task{}, MaxSteps: maxSteps, LogOn: logOn,
 		Faults: map[string]int{}, Probes: map[string]int{}, Anomalies: map[string]int{},
 		rootSpawn: map[string]int{}, progress: progress,
+	}
+	if runInBubble == nil {
+		// sequential engine: no goroutines to schedule, the scenario is a plain
+		// function of the tape (kernsim). Same failure / probe / fault interface.
+		s.start = time.Now()
+		func() {
+			defer func() {
+				if r := recover(); r != nil {
+					buf := make([]byte, 8192)
+					buf = buf[:runtime.Stack(buf, false)]
+					s.Failf("harness-panic", "%v\n%s", r, buf)
+				}
+			}()
+			scenario(s)
+		}()
+		res.Fail, res.Sig, res.Multi, res.Steps = s.Fail, s.sigHash, s.multi, s.Step
+		res.Faults, res.Probes, res.Anomalies, res.Log, res.Tape = s.Faults, s.Probes, s.Anomalies, s.Log, tape.Rec
+		res.SimTime = s.SeqSimTime
+		return
 	}
 	s.stick = []int{0, 50, 80, 95}[tape.Choose(4)]
 	s.timeBias = []int{1, 0, 2, 4}[tape.Choose(4)]
